@@ -223,6 +223,10 @@ def f_shape_core() -> List[Case]:
     rsv = Message("Reserved", [], ext=True)
     add("empty_ext", [rsv, Message("M", [Field(U(3), "h", 1), Field(TRef(rsv), "r", 2), Field(TArray(TRef(rsv), 2), "rs", 3), Field(U(6), "t", 4)])], ("ext", "empty"))
 
+    # the largest legal field number on message-typed fields
+    inner255 = Message("Inner", [Field(U(5), "v", 1), Field(I(7), "w", 255)])
+    add("fieldnum255", [inner255, Message("M", [Field(U(3), "a", 1), Field(TArray(TRef(inner255), 2), "items", 254), Field(TRef(inner255), "last", 255)])], ("numbers",))
+
     # very long (valid) field and message names: nothing in the runtimes may depend on the length of a name
     long_inner = Message("TelemetryFrameWithAVeryLongDescriptiveName", [Field(U(7), "a_rather_long_field_name_of_forty_two_chars_", 1), Field(I(9), "x", 2)])
     add("long_names", [long_inner, Message("M", [Field(U(3), "brief", 1), Field(TRef(long_inner), "the_quick_brown_fox_jumps_over_the_lazy_dog_again_and_again", 2),
